@@ -71,20 +71,28 @@ func (l *Listener) acceptLoop() {
 				connState := newDTLSConn.ConnectionState()
 				connID := connState.RemoteRandomBytes()
 
-				acceptCh, err := l.chFromID(connID)
-
-				if err != nil {
-					return
-				}
-
-				select {
-				case acceptCh <- newDTLSConn:
-					return
-				case <-ctx.Done():
-					return
+				if !l.deliver(connID, newDTLSConn) {
+					newDTLSConn.Close()
 				}
 			}()
 		}
+	}
+}
+
+// deliver hands the connection to the registered acceptor; lookup and hand-over are one step with
+// respect to removeChannel.
+func (l *Listener) deliver(id [handshake.RandomBytesLength]byte, c net.Conn) bool {
+	l.connMapMutex.Lock()
+	defer l.connMapMutex.Unlock()
+	ch, ok := l.connMap[id]
+	if !ok {
+		return false
+	}
+	select {
+	case ch <- c:
+		return true
+	default:
+		return false
 	}
 }
 
@@ -228,17 +236,25 @@ func (l *Listener) acceptDTLSConn(ctx context.Context, config *Config) (net.Conn
 		return &dtls.Conn{}, err
 	}
 
+	connCh, err := l.registerChannel(connID)
+	if err != nil {
+		return nil, fmt.Errorf("error registering channel: %v", err)
+	}
+	defer func() {
+		l.removeChannel(connID)
+		// a connection handed over while this call was leaving belongs to nobody: close it
+		select {
+		case c := <-connCh:
+			c.Close()
+		default:
+		}
+	}()
+
 	err = l.registerCert(connID, clientCert, serverCert)
 	if err != nil {
 		return nil, fmt.Errorf("error registering cert: %v", err)
 	}
 	defer l.removeCert(connID)
-
-	connCh, err := l.registerChannel(connID)
-	if err != nil {
-		return nil, fmt.Errorf("error registering channel: %v", err)
-	}
-	defer l.removeChannel(connID)
 
 	select {
 	case conn := <-connCh:
@@ -266,7 +282,7 @@ func (l *Listener) removeCert(connID [handshake.RandomBytesLength]byte) {
 	delete(l.connToCert, connID)
 }
 
-func (l *Listener) registerChannel(connID [handshake.RandomBytesLength]byte) (<-chan net.Conn, error) {
+func (l *Listener) registerChannel(connID [handshake.RandomBytesLength]byte) (chan net.Conn, error) {
 	l.connMapMutex.Lock()
 	defer l.connMapMutex.Unlock()
 
